@@ -1,4 +1,4 @@
-(* C06 — wire formats and oracles. Four kinds of cases, told apart by the first number:
+(* C06 — wire formats and oracles. Five kinds of cases, told apart by the first number:
 
      (no tag)  a history of the shared manager model (coq/Mgr/Glue.v), C06 oracle;
      9600      the ConnectionLimits object alone (coq/Mgr/Limits.v): a configuration built by a
@@ -7,7 +7,9 @@
      9602      a history of the manager model, with the log of the calls the manager makes on its
                ConnectionLimits after every step (Limits.lim_ops / lim_log) and environment
                choices the manager must ignore (results of reject / accept_pending /
-               reject_pending).
+               reject_pending);
+     9603      real loopback sockets: what the real TcpTransport / WebSocketTransport do with a
+               connection the owner accepts or rejects, seen from the remote end.
 
    prop_ok judges what the property text demands on the trace alone; the agreement of trace and
    model (including the call log) is the correspondence check. Definitions only. *)
@@ -20,6 +22,7 @@ Open Scope N_scope.
 Definition TAG_LIMITS : N := 9600.
 Definition TAG_PEER : N := 9601.
 Definition TAG_WRAPPED : N := 9602.
+Definition TAG_SOCK : N := 9603.
 
 (* ======================= 9600: the ConnectionLimits object ======================= *)
 Definition p_cfg_call : parser cfg_call :=
@@ -330,6 +333,76 @@ Definition prop_ok_wrapped (body trace : list N) : bool :=
   | [] => match trace with [0] => true | _ => false end
   end.
 
+(* ======================= 9603: real sockets: what accept / reject do to a connection ==========
+   case body: transport (0 tcp, 1 websocket), then per connection (kind, d1, d2):
+     kind 0 inbound (remote node dials):  d1: 1 accept_pending / 0 reject_pending; d2: 1 accept / 0 reject
+     kind 1 outbound (local dial):        d2 likewise
+     kind 2 bare inbound socket:          reject_pending
+   trace per connection: pending seen, result of the first call (d1 call; dial for kind 1),
+   established seen, result of the d2 call, `again` (number of Ok among a further reject_pending(c)
+   and reject(c)), remote end saw the connection go away, events emitted for c after the decision *)
+Definition sock_accepted (kind d1 d2 : N) : bool :=
+  match kind with
+  | 0 => negb (d1 =? 0) && negb (d2 =? 0)
+  | 1 => negb (d2 =? 0)
+  | _ => false
+  end.
+Definition sock_expect (kind d1 d2 : N) : list N :=
+  let pend := if kind =? 1 then 0 else 1 in
+  let est := if kind =? 1 then 1 else if kind =? 0 then (if d1 =? 0 then 0 else 1) else 0 in
+  [pend; 1; est; est; 0; if sock_accepted kind d1 d2 then 0 else 1; 0].
+
+Definition p_sock_conn : parser (N * N * N) :=
+  let* k := pN in let* a := pN in let* b := pN in
+  if (k <? 3) && (a <? 2) && (b <? 2) && negb ((k =? 2) && negb (a =? 0)) then pret (k, a, b) else pfail.
+Definition decode_sock (l : list N) : option (N * list (N * N * N)) :=
+  pall (let* tr := pN in let* cs := plist p_sock_conn in if tr <? 2 then pret (tr, cs) else pfail) l.
+
+Definition run_sock (body : list N) : list N :=
+  match decode_sock body with
+  | Some (_, cs) => 1 :: flat_map (fun x : N * N * N => sock_expect (fst (fst x)) (snd (fst x)) (snd x)) cs
+  | None => [0]
+  end.
+
+Definition p_sock_obs : parser (list N) :=
+  let* a := pN in let* b := pN in let* c := pN in let* d := pN in let* e := pN in let* f := pN in let* g := pN in
+  pret [a; b; c; d; e; f; g].
+
+(* a rejected connection is gone for the remote end, its entry is consumed, and nothing more is
+   reported about it; an accepted one is not disturbed *)
+Definition sock_conn_ok (x : N * N * N) (o : list N) : bool :=
+  let '(k, d1, d2) := x in
+  match o with
+  | [pend; r1; est; r2; again; closed; later] =>
+      (* judged when the environment delivered the events the script waits for *)
+      if nlist_eqb [pend; r1; est; r2] (firstn 4 (sock_expect k d1 d2)) then
+        (later =? 0) && (again =? 0) &&
+        (if sock_accepted k d1 d2 then closed =? 0 else closed =? 1)
+      else true
+  | _ => false
+  end.
+
+Fixpoint sock_ok (cs : list (N * N * N)) (os : list (list N)) : bool :=
+  match cs, os with
+  | [], [] => true
+  | x :: cs', o :: os' => sock_conn_ok x o && sock_ok cs' os'
+  | _, _ => false
+  end.
+
+Definition prop_ok_sock (body trace : list N) : bool :=
+  match decode_sock body with
+  | Some (_, cs) =>
+      match trace with
+      | 1 :: rest =>
+          match pall (prep (length cs) p_sock_obs) rest with
+          | Some os => sock_ok cs os
+          | None => false
+          end
+      | _ => false
+      end
+  | None => match trace with [0] => true | _ => false end
+  end.
+
 (* ======================= dispatch ======================= *)
 Definition run_case (l : list N) : list N :=
   match l with
@@ -337,6 +410,7 @@ Definition run_case (l : list N) : list N :=
       if t =? TAG_LIMITS then run_limits body
       else if t =? TAG_PEER then run_peer body
       else if t =? TAG_WRAPPED then run_wrapped body
+      else if t =? TAG_SOCK then run_sock body
       else V.Mgr.Glue.run_case l
   | [] => V.Mgr.Glue.run_case l
   end.
@@ -347,6 +421,7 @@ Definition prop_ok (case trace : list N) : bool :=
       if t =? TAG_LIMITS then prop_ok_limits body trace
       else if t =? TAG_PEER then prop_ok_peer body trace
       else if t =? TAG_WRAPPED then prop_ok_wrapped body trace
+      else if t =? TAG_SOCK then prop_ok_sock body trace
       else prop_ok_C06 case trace
   | [] => prop_ok_C06 case trace
   end.
